@@ -193,8 +193,10 @@ where
             nodes: extend_lpm(
                 self.table,
                 other.table,
-                self.table[self.loc.idx()].prefix_value(),
-                other.table[other.loc.idx()].prefix_value(),
+                // The two roots may be different nodes: the longest prefix match of either side
+                // is only known once the traversal pairs up a node (see `extend_lpm`).
+                None,
+                None,
                 next_indices(
                     self.table,
                     other.table,
